@@ -231,6 +231,9 @@ fn main() {
         std::fs::create_dir_all(&empty).ok();
         std::env::set_var("PATH", &empty);
     }
+    // … and hook H7 answers the probe without forking at all (a fork of this multi-threaded process per
+    // reload dominated the run time of the reload scenarios)
+    emmylua_code_analysis::verif_hooks::set_luarocks_deploy_dir_override(Some(String::new()));
     world::install_panic_recorder();
     match args.prop.as_str() {
         "C24" => c24::run(&args),
